@@ -94,6 +94,37 @@ def run(tier, seed):
                 rep.violation("C16:prevented-call-not-refused",
                               "nested call beneath a preventing call: executed=%s, caught=%r (expected RuntimeError, no execution)" % (leaf_ran, caught),
                               {"leaf_memoized_before": pre_leaf, "context": ctx})
+            # the same with the preventing call on an INNER edge: outer -> (prevented) mid -> leaf, by single call or batch
+            r.trace.clear()
+            leaf2 = {"id": 7200 + t}
+            how = rng.choice(["single", "batch"])
+            mid2 = {"id": 7300 + t, "calls": [{"fn": "n1", "spec": leaf2, "catch": True}]}
+            edge = {"fn": "n2", "prevent": True, "catch": True}
+            if rng.random() < 0.5:
+                edge["ctx"] = {"d": t}
+            if how == "batch":
+                edge["batch"] = [mid2]
+                edge["raise_first"] = True
+            else:
+                edge["spec"] = mid2
+            outer = {"id": 7400 + t, "calls": [edge]}
+            if rng.random() < 0.5:
+                (fnmod.n1.with_context_args(edge["ctx"]) if edge.get("ctx") else (fnmod.n1.with_context_args(ctx) if ctx else fnmod.n1))(leaf2)
+                pre2 = True
+            else:
+                pre2 = False
+            r.trace.clear()
+            try:
+                (fnmod.n3.with_context_args(ctx) if ctx else fnmod.n3)(outer)
+            except Exception as e:
+                rep.violation("C16:prevent-escaped", "a call tree with a preventing inner edge raised %s: %s" % (type(e).__name__, str(e)[:100]), {"edge": edge})
+            ev = r.trace.events
+            leaf_ran = any(e[0] == "exec" and e[2] == leaf2["id"] for e in ev)
+            caught = [e for e in ev if e[0] == "caught" and e[1] == "n2"]
+            if leaf_ran or not caught or caught[0][3] != "RuntimeError":
+                rep.violation("C16:prevented-call-not-refused:inner-edge",
+                              "outer -> mid called with further calls prevented (%s) -> leaf: leaf executed=%s, mid caught %r (expected RuntimeError, no execution)" % (how, leaf_ran, caught),
+                              {"leaf_memoized_before": pre2, "root_context": ctx, "edge": edge})
             shutil.rmtree(os.path.join(scratch, "store-v%d" % t), ignore_errors=True)
         try:
             res = C.run_coq_cases("c16", R.HEADER, terms, "run_case", shard=200,
